@@ -174,6 +174,18 @@ def build_harness():
     return time.time() - t0
 
 
+def build_zeep_bin():
+    """build the zeep CLI from /repo's working tree into /verif/build/zeep_target; returns the binary path"""
+    td = os.path.join(BUILD, "zeep_target")
+    env = dict(os.environ, CARGO_NET_OFFLINE="true")
+    p = subprocess.run(["cargo", "build", "--offline", "-q", "-p", "zeep", "--target-dir", td], cwd=REPO, env=env,
+                       stdout=subprocess.PIPE, stderr=subprocess.STDOUT)
+    if p.returncode != 0:
+        sys.stderr.write(p.stdout.decode("utf-8", "replace")[-3000:])
+        raise ToolError("building the zeep binary failed")
+    return os.path.join(td, "debug", "zeep")
+
+
 def write_cases(path, vocab, cases):
     with open(path, "w") as f:
         f.write(json.dumps({"vocab": vocab}) + "\n")
